@@ -127,6 +127,7 @@ class Controller:
         self.active = False
         self.helper = None
         self.anomalies = []
+        self.diverged = []
         self.in_wait = None
         self.execs = 0
 
@@ -172,7 +173,9 @@ class Controller:
             return options[0]
         c = self.script[self.pos] if self.pos < len(self.script) else 0
         if c >= n:
-            self.anomalies.append(f"script choice {c} out of range {n} at decision {self.pos} ({point})")
+            # the replayed prefix met a smaller option set than the run the script was derived from: the execution went a
+            # different way (still a real execution - its trace is validated like any other); the explorer retries the script
+            self.diverged.append(f"script choice {c} out of range {n} at decision {self.pos} ({point})")
             c = 0
         self.pos += 1
         self.trail.append((n, c))
@@ -717,6 +720,7 @@ def run_history(cfg, script=(), max_subset=None, max_bg=None):
         "events": ctl.events,
         "trail": ctl.trail,
         "anomalies": ctl.anomalies,
+        "diverged": ctl.diverged,
         "ids": ids,
         "src": src,
         "hang": state["hang"],
